@@ -11,12 +11,13 @@ out: {"traces":[..], "stats":{..}}
 import json
 import logging
 import sys
+import signal
 import threading
 import types
 from concurrent.futures import ThreadPoolExecutor
 
 from insights.core import dr, plugins
-from insights.core.context import SerializedArchiveContext
+from insights.core.context import HostContext, SerializedArchiveContext
 from insights.core.exceptions import (CalledProcessError, ContentException, SkipComponent,
                                       TimeoutException)
 from insights.core.spec_factory import RegistryPoint, SpecSet
@@ -429,7 +430,15 @@ class Recorder(object):
                 m = dict(NOMISS) if mr is None else {"set": True, "mr": [self.prog.cid(x) for x in mr[0]],
                                                      "mg": [[self.prog.cid(x) for x in g] for g in mr[1]]}
                 v = self.prog.proj(broker[component]) if component in broker else dict(ABSENT)
-                ev = {"ev": "att", "w": w, "s": self.sub_of_thread.get(w, 0), "c": c, "v": v,
+                # a time limit armed for this attempt (datasources under a HostContext arm SIGALRM) must be
+                # disarmed when the attempt is over: observed as the real timer's remaining time, then
+                # cancelled so that a leftover cannot fire in the driver
+                alarm = False
+                if threading.current_thread() is threading.main_thread():
+                    alarm = signal.getitimer(signal.ITIMER_REAL)[0] > 0
+                    if alarm:
+                        signal.alarm(0)
+                ev = {"ev": "att", "w": w, "s": self.sub_of_thread.get(w, 0), "c": c, "v": v, "alarm": alarm,
                       "m": m, "calls": calls, "recs": recs, "obs": [{"t": "any", "has": component in broker}]}
                 self.events.append(ev)
                 self.pending[self.attempt_no(c, "rec")] = ev
@@ -483,10 +492,13 @@ class Recorder(object):
         return {"inst": inst, "missing": miss, "recs": sorted(set(recs))}
 
 
-def run_case(case, driver, npad, listlen, obsfail, idtag=""):
+def run_case(case, driver, npad, listlen, obsfail, idtag="", host=False):
     prog = Program(case, listlen)
     try:
         pooled = driver.startswith("pool")
+        # host: the evaluation is a live collection (HostContext in the broker), where every datasource
+        # attempt runs under a SIGALRM time limit; signals need the main thread, so never in pooled runs
+        host = host and not pooled and not case.get("arch")
         rec = Recorder(prog, pooled, obsfail)
         shared = driver.endswith("s") or driver in ("forced", "run", "closure", "group", "afterincr") or \
             any(p["seeded"] for p in case["prog"])
@@ -501,6 +513,8 @@ def run_case(case, driver, npad, listlen, obsfail, idtag=""):
                     b.add_observer(o)
             if case.get("arch"):
                 b[SerializedArchiveContext] = SerializedArchiveContext(root="/")
+            if host:
+                b[HostContext] = HostContext()
             for c in range(1, prog.n + 1):
                 if case["prog"][c - 1]["seeded"]:
                     # a seeded component never runs, so its (unused) outcome field picks the seed value
@@ -520,6 +534,8 @@ def run_case(case, driver, npad, listlen, obsfail, idtag=""):
             def __init__(self, seed_broker=None):
                 orig_broker.__init__(self, seed_broker)
                 self.store_skips = bool(case["ss"])
+                if host:
+                    self[HostContext] = HostContext()
                 self.add_observer(rec.observer)
                 rec.add_typed(self)
                 if obsfail:
@@ -608,6 +624,7 @@ def run_case(case, driver, npad, listlen, obsfail, idtag=""):
                 "final": None if escaped else rec.final(),
                 "prog": prog.registered(npad, observed if driver in ("closure", "afterincr") else None),
                 "closure": driver in ("closure", "afterincr"), "strict": True, "arch": bool(case.get("arch")),
+                "host": bool(host),
                 "ss": bool(case["ss"]), "mode": mode,
                 "workers": max(workers, len(rec.threads), 1), "events": rec.events}
     finally:
@@ -639,7 +656,7 @@ def main():
                 continue
             n += 1
             traces.append(run_case(case, drv, inp["npad"], inp["listlen"], bool(every and n % every == 0),
-                                   inp.get("idtag", "")))
+                                   inp.get("idtag", ""), host=(n % 2 == 0)))
     with open(sys.argv[2], "w") as f:
         json.dump({"traces": traces, "stats": {"executions": n}}, f, separators=(",", ":"))
 
